@@ -333,9 +333,10 @@ def check_c0c1(case, ctx):
         S = scale_c0c1(kind, c0, c1) * FL
         err = np.abs(got - ref)
         ctx.subchecks += 1
-        ctx.metric(name + '.err/S', float(np.max(err / S)))
-        if np.any(err > 2e-13 * S):
-            i, j = np.unravel_index(np.argmax(err / S), err.shape)
+        ctx.metric(name + '.err/S', float(np.max(err / (S + 1e-290))))
+        # absolute floor: with subnormal c0 / c1 the integrals themselves are subnormal numbers (gradual underflow has no relative accuracy)
+        if np.any(err > 2e-13 * S + 1e-290):
+            i, j = np.unravel_index(np.argmax(err - 2e-13 * S), err.shape)
             raise Violation('integral_%s[%d,%d]' % (name, i, j), 'c0=%r c1=%r flags=%r got %r want %r' % (c0, c1, fl, got[i, j], ref[i, j]))
         if c0 == 0. and c1 == 1.:
             # identity map == full-interval table (transpose for fxif)
@@ -344,7 +345,7 @@ def check_c0c1(case, ctx):
             else:
                 full = build.table_full(L, name[:-5], fl)
             ctx.subchecks += 1
-            bad = np.abs(got - full) > 2e-13 * S
+            bad = np.abs(got - full) > 2e-13 * S + 1e-290
             if np.any(bad):
                 i, j = np.argwhere(bad)[0]
                 raise Violation('identity-map:%s[%d,%d]' % (name, i, j), 'c0c1 %r full %r' % (got[i, j], full[i, j]))
